@@ -3,12 +3,15 @@
 The specification predicts *terms* <<generator identity, time>>; the driver checks that the
 mapping term -> observed float is a function (across visiting orders, instances and behaviours
 replayed by this process) and that distinct times give the values of their own terms."""
+import json
 import logging
+import zlib
 
 from harness.core import import_param
 from harness.drivers import _simple
 
 param = import_param()
+logging.disable(logging.WARNING)      # numbergen warns on every float time ("Casting type 'float' ...")
 from fractions import Fraction
 import numbergen  # noqa: E402
 
@@ -33,6 +36,25 @@ class Counter:
 
 
 BASE = 10 ** 6
+FAMILIES = ["uniform", "normal", "randint", "choice", "sum", "offset"]
+
+
+def make_gen(family, name):
+    """a time-dependent generator identified by (name, seed): its value is a function of that identity and the time"""
+    kw = dict(name=name, seed=7, time_dependent=True)
+    if family == "uniform":
+        return numbergen.UniformRandom(**kw)
+    if family == "normal":
+        return numbergen.NormalRandom(mu=1.0, sigma=2.0, **kw)
+    if family == "randint":
+        return numbergen.UniformRandomInt(lbound=0, ubound=2 ** 60, **kw)
+    if family == "choice":
+        return numbergen.Choice(choices=[x * 1.25 for x in range(5000)], **kw)
+    if family == "offset":
+        return numbergen.UniformRandomOffset(mean=3.0, range=2.0, **kw)
+    if family == "sum":
+        return numbergen.UniformRandom(**kw) + numbergen.NormalRandom(name=name + "-n", seed=3, time_dependent=True)
+    raise ValueError(family)
 
 
 class System:
@@ -41,10 +63,11 @@ class System:
         # how spec times are represented: small ints (cached objects), large ints created afresh at
         # every jump (equal but not identical), or Fractions
         self.enc = opts.get("enc", "small")
+        self.family = opts.get("family", "uniform")
         # (the one global Time object is kept: numbergen captured it at import)
         self.tf = param.Dynamic.time_fn
         self.tf._pushed_state = []
-        self.tf(self.T(0), time_type=Fraction if self.enc == "fraction" else int)
+        self.tf(self.T(0), time_type={"fraction": Fraction, "float": float}.get(self.enc, int))
         gen = opts["gens"]        # slot -> identity
         inst = opts["insts"]      # slot -> instance number
         self.objs = {}
@@ -57,7 +80,7 @@ class System:
                 used[i] = 0
             pname = "ab"[used[i]]
             used[i] += 1
-            g = Counter() if gen[s] == "K" else numbergen.UniformRandom(name=gen[s], seed=7, time_dependent=True)
+            g = Counter() if gen[s] == "K" else make_gen(self.family, gen[s])
             setattr(self.objs[i], pname, g)
             self.slot[int(s)] = (self.objs[i], pname, gen[s])
         self.cms = []
@@ -67,16 +90,20 @@ class System:
             return t
         if self.enc == "fraction":
             return Fraction(t * 3 + 1, 3)
+        if self.enc == "float":
+            return t + 0.5
         return int(str(BASE + t))          # a new int object every time
 
     def D(self, d):
-        return Fraction(d) if self.enc == "fraction" else d
+        return Fraction(d) if self.enc == "fraction" else float(d) if self.enc == "float" else d
 
     def unT(self, x):
         if self.enc == "small":
             return x
         if self.enc == "fraction":
             return (x * 3 - 1) / 3
+        if self.enc == "float":
+            return x - 0.5
         return x - BASE
 
     def init(self, st):
@@ -141,8 +168,8 @@ class System:
                     return ("same_time_same_value", "%s of the counter-backed parameter returned %r, spec expects the value of production number %d "
                             "(a read at an unchanged time must return the cached value, a read at a new time produces exactly once)" % (name, ret, term[1]))
                 return None
-            key = (term[0], self.enc, term[1])
-            if not isinstance(ret, float):
+            key = (term[0], self.enc + "/" + self.family, term[1])
+            if isinstance(ret, bool) or not isinstance(ret, (int, float)):
                 return ("value", "%s returned %r (not a number) for term %s" % (name, ret, key))
             if key in TABLE and TABLE[key] != ret:
                 return ("not_a_function_of_time", "%s of generator %s at time %s returned %r, but %r was returned for the same generator and time before"
@@ -163,10 +190,11 @@ class System:
 def replay(beh, opts):
     if "enc" not in opts:
         res = None
-        for enc in ("small", "fresh", "fraction"):
-            res = replay(beh, dict(opts, enc=enc))
+        fam = FAMILIES[zlib.crc32(json.dumps(beh, sort_keys=True).encode()) % len(FAMILIES)]
+        for enc in ("small", "fresh", "fraction", "float"):
+            res = replay(beh, dict(opts, enc=enc, family=fam))
             if res["status"] != "ok":
-                res["msg"] = "[times as %s] %s" % (enc, res.get("msg"))
+                res["msg"] = "[times as %s, %s generators] %s" % (enc, fam, res.get("msg"))
                 break
         return res
     if opts.get("nontrivial") == "rejected":
